@@ -4,6 +4,7 @@ import (
 	"encoding/json"
 	"fmt"
 	"math"
+	"math/big"
 	"sort"
 	"sync"
 	"testing"
@@ -29,11 +30,13 @@ type TileCase struct {
 	OutSide string  `json:"outside"` // which side the outside probe lies on
 	OutFrac float64 `json:"outfrac"` // how many tiles beyond
 	Class   string  `json:"class"`
-	Prev    string  `json:"prev,omitempty"` // decode this set into the variable first, use it, then decode Set into the same variable
+	Prev    string  `json:"prev,omitempty"`    // decode this set into the variable first, use it, then decode Set into the same variable
+	Edge    string  `json:"edge,omitempty"`    // a second interior point hugging this edge (or corner) of the tile ...
+	EdgeExp int     `json:"edgeexp,omitempty"` // ... at 2^-EdgeExp of a tile from it
 }
 
 var specC15 = report.Spec{Property: "C15", Check: "C15",
-	Rule: "every built-in set x every tile matrix without variable widths x tiles (the four corner tiles, border tiles, random tiles over the full matrix) x an interior point at fractions in [0.01, 0.99]^2 x an outside point 1%-300% of a tile beyond one of the four sides, or with an infinite or NaN ordinate; 1 case in ~40 decodes another document into a variable, uses it, and decodes the set under test into the same variable; " +
+	Rule: "every built-in set x every tile matrix without variable widths x tiles (the four corner tiles, border tiles, random tiles over the full matrix) x an interior point at fractions in [0.01, 0.99]^2 x an outside point 1%-300% of a tile beyond one of the four sides, or with an infinite or NaN ordinate, or (1 in 3) finite but 1e15 .. MaxFloat64 away; every second case a second interior point 2^-24 .. 2^-44 of a tile from an edge or corner of the tile, whose tile is decided with rational arithmetic and checked when the exact tile coordinate keeps more than |q|*2^-49 from a whole number (three float64 roundings cannot move it across); 1 case in ~40 decodes another document into a variable, uses it, and decodes the set under test into the same variable; " +
 		"each case on the set itself or on its twin (corner of origin flipped, point of origin moved to the other corner: same extent). Oracle: an independent x,y extent from the document numbers (axis order from orderedAxes, origin, matrix size x tile size x cell size): " +
 		"ToNative(tile) = the top left corner of that tile by the harness' arithmetic (tolerance 2e-9 + 8 ulp), FromNative(interior point) = that tile, outside => no tile, ToNative accepts x = width / y = height and rejects beyond, " +
 		"MatrixBoundingBox = [corner of tile (0,0), corner of tile (w,h)] = the independent extent, twin and original give the same extent and the same tile after flipping the row. " +
@@ -105,6 +108,14 @@ func genC15(t *rapid.T) TileCase {
 		c.Prev = rapid.SampledFrom(setsElig).Draw(t, "prev")
 	}
 	c.OutFrac = rapid.Float64Range(0.01, 3).Draw(t, "outfrac")
+	if rapid.IntRange(0, 2).Draw(t, "far") == 1 { // finite, but astronomically far outside
+		c.OutSide = rapid.SampledFrom([]string{"far-left", "far-right", "far-below", "far-above"}).Draw(t, "farSide")
+		c.OutFrac = rapid.SampledFrom([]float64{1e15, 9.3e18, 1e19, 1.9e19, 1e30, 1e100, 1e300, math.MaxFloat64}).Draw(t, "farValue")
+	}
+	if rapid.Bool().Draw(t, "edge") {
+		c.Edge = rapid.SampledFrom([]string{"right", "bottom", "left", "top", "bottomright", "topleft"}).Draw(t, "edgeSide")
+		c.EdgeExp = rapid.IntRange(24, 44).Draw(t, "edgeExp")
+	}
 	return c
 }
 
@@ -207,6 +218,46 @@ func oracleC15(c TileCase) (o report.Outcome) {
 			fail("FromNative(%v), a point strictly inside tile (%d,%d), = %v (ok=%v)", pt, c.X, c.Y, tile, ok)
 			return
 		}
+		// a second interior point that hugs an edge of the tile. Which tile it belongs to is decided exactly (rationals over the
+		// document numbers as the tool reads them); the clause applies when the exact tile coordinate is farther from a whole number
+		// than the three roundings of the tool's float64 arithmetic can move it (|q| * 2^-49)
+		if c.Edge != "" {
+			d := math.Ldexp(1, -c.EdgeExp)
+			fx, fy := c.FX, c.FY
+			switch c.Edge {
+			case "right":
+				fx = 1 - d
+			case "left":
+				fx = d
+			case "bottom":
+				fy = 1 - d
+			case "top":
+				fy = d
+			case "bottomright":
+				fx, fy = 1-d, 1-d
+			case "topleft":
+				fx, fy = d, d
+			}
+			ep := geom.Point{ex + fx*tsx, ey - fy*tsy}
+			oxy := *tm.PointOfOrigin
+			if swapped {
+				oxy[0], oxy[1] = oxy[1], oxy[0]
+			}
+			qx, okx := exactTileCoord(ep[0], oxy[0], tm.TileWidth, tm.CellSize, false)
+			qy, oky := exactTileCoord(ep[1], oxy[1], tm.TileHeight, tm.CellSize, !bottomLeft)
+			if okx && oky {
+				o.Label("edge hugging point decided exactly")
+				o.NonTrivial = true
+				inside := qx >= 0 && qy >= 0 && qx < int64(tm.MatrixWidth) && qy < int64(tm.MatrixHeight)
+				et, ok := tms.FromNative(z, ep)
+				if ok != inside || (ok && (int64(et.X) != qx || int64(et.Y) != qy)) {
+					fail("FromNative(%v), a point 2^-%d of a tile from the %s edge of tile (%d,%d), = %v (ok=%v); exactly it lies in column %d, row %d (inside the matrix: %v)", ep, c.EdgeExp, c.Edge, c.X, c.Y, et, ok, qx, qy, inside)
+					return
+				}
+			} else {
+				o.Label("edge hugging point within float noise of an edge (not decided)")
+			}
+		}
 		// the same point on the other convention: same column, flipped row
 		other := orig
 		if !c.Twin {
@@ -234,6 +285,14 @@ func oracleC15(c TileCase) (o report.Outcome) {
 			op = geom.Point{math.NaN(), pt[1]}
 		case "nan-y":
 			op = geom.Point{pt[0], math.NaN()}
+		case "far-left":
+			op = geom.Point{-c.OutFrac, pt[1]}
+		case "far-right":
+			op = geom.Point{c.OutFrac, pt[1]}
+		case "far-below":
+			op = geom.Point{pt[0], -c.OutFrac}
+		case "far-above":
+			op = geom.Point{pt[0], c.OutFrac}
 		default:
 			op = geom.Point{pt[0], maxY + c.OutFrac*tsy}
 		}
@@ -286,6 +345,32 @@ func oracleC15(c TileCase) (o report.Outcome) {
 		fail("panic: %v", pan)
 	}
 	return o
+}
+
+// exactTileCoord: floor((p - o) / (n * cell)) (or (o - p) / ... when the axis is counted downwards) over the rationals, and whether the
+// quotient keeps a distance of more than |q| * 2^-49 + 2^-70 from every whole number.
+func exactTileCoord(p, o float64, n uint, cell float64, downwards bool) (int64, bool) {
+	if math.IsInf(p, 0) || math.IsNaN(p) {
+		return 0, false
+	}
+	num := new(big.Rat).Sub(new(big.Rat).SetFloat64(p), new(big.Rat).SetFloat64(o))
+	if downwards {
+		num.Neg(num)
+	}
+	den := new(big.Rat).Mul(new(big.Rat).SetInt64(int64(n)), new(big.Rat).SetFloat64(cell))
+	q := new(big.Rat).Quo(num, den)
+	fl := new(big.Int).Div(q.Num(), q.Denom()) // floor for a positive denominator
+	if !fl.IsInt64() {
+		return 0, false
+	}
+	lo := new(big.Rat).Sub(q, new(big.Rat).SetInt(fl))   // distance to the whole number below
+	hi := new(big.Rat).Sub(new(big.Rat).SetInt64(1), lo) // and above
+	margin := new(big.Rat).Mul(new(big.Rat).Abs(q), new(big.Rat).SetFrac64(1, 1<<49))
+	margin.Add(margin, new(big.Rat).SetFrac(big.NewInt(1), new(big.Int).Lsh(big.NewInt(1), 70)))
+	if lo.Cmp(margin) <= 0 || hi.Cmp(margin) <= 0 {
+		return 0, false
+	}
+	return fl.Int64(), true
 }
 
 func TestC15(t *testing.T) { report.Run(t, specC15, genC15, oracleC15) }
